@@ -44,22 +44,26 @@ def mintAmount (pool : Pool) (p : NodeParams) : TxM (Option Int) :=
         | .ok none => pure none
         | .ok (some r) => if r = 0 then pure none else pure (some r)
 
+/-- the pool record after a block that mints `reward`: the smoothed reward-per-block figures, the cumulative reward
+    counter and the reward-per-byte accumulator (throws where the Go code panics) -/
+def beginPool (pool : Pool) (p : NodeParams) (h reward : Int) : TxM Pool := do
+  let pool := if pool.nextRewardPerBlock = 0 then { pool with nextRewardPerBlock := Dec.ofInt reward } else pool
+  if p.adjustmentPeriod = 0 then throw "division by zero"
+  let pool := if Int.tmod h p.adjustmentPeriod = 0 then
+      { pool with rewardPerBlock := pool.nextRewardPerBlock, nextRewardPerBlock := Dec.ofInt reward } else pool
+  let pool := { pool with nextRewardPerBlock := Dec.quo (pool.nextRewardPerBlock + Dec.ofInt reward) (Dec.ofInt 2) }
+  if !p.denomIsSao ∧ pool.totalRewardIsSao then throw "invalid coin denominations"
+  if pool.totalStorage = 0 then throw "division by zero"
+  let acc := pool.accRewardPerByte + Dec.quoInt (Dec.ofInt reward) pool.totalStorage
+  pure { pool with totalReward := pool.totalReward + reward, accRewardPerByte := acc, accPledgePerByte := acc,
+                   rewardedBlockCount := pool.rewardedBlockCount + 1 }
+
 def nodeBeginBlock (e : Env) (s : State) : TxM State := do
   let some pool := s.pool | return s
   let p := s.params
   let some reward ← mintAmount pool p | return s
-  let pool := if pool.nextRewardPerBlock = 0 then { pool with nextRewardPerBlock := Dec.ofInt reward } else pool
-  if p.adjustmentPeriod = 0 then throw "division by zero"
-  let pool := if Int.tmod s.h p.adjustmentPeriod = 0 then
-      { pool with rewardPerBlock := pool.nextRewardPerBlock, nextRewardPerBlock := Dec.ofInt reward } else pool
-  let pool := { pool with nextRewardPerBlock := Dec.quo (pool.nextRewardPerBlock + Dec.ofInt reward) (Dec.ofInt 2) }
-  let s := s.mint e.modNode reward
-  if !p.denomIsSao ∧ pool.totalRewardIsSao then throw "invalid coin denominations"
-  if pool.totalStorage = 0 then throw "division by zero"
-  let acc := pool.accRewardPerByte + Dec.quoInt (Dec.ofInt reward) pool.totalStorage
-  let pool := { pool with totalReward := pool.totalReward + reward, accRewardPerByte := acc, accPledgePerByte := acc,
-                          rewardedBlockCount := pool.rewardedBlockCount + 1 }
-  pure { s with pool := some pool }
+  let pool ← beginPool pool p s.h reward
+  pure { (s.mint e.modNode reward) with pool := some pool }
 
 /-- `node.EndBlock`: offline detection (DoPenalty reads the index store whose values are not
     protobuf faults, so it never finds a confirmed fault; see DESIGN C19). -/
